@@ -1382,9 +1382,14 @@ def main(run):
             continue
         if name == "mallocs":
             model_m = ans.split(" ## ")
-            if sorted(model_m) != sorted(mallocs):
+            # a temporary of the model that no longer exists makes the model's statement about it vacuous (counted);
+            # a NEW temporary or a changed element type / count is not covered by any theorem
+            new_m = [k_ for k_ in set(mallocs) if mallocs.count(k_) > model_m.count(k_)]
+            gone = [k_ for k_ in set(model_m) if model_m.count(k_) > mallocs.count(k_)]
+            run.cov["correspondence"]["heap temporaries of the model no longer in the code"] = gone
+            if new_m:
                 run.broke("correspondence", "heap temporaries of /repo/c (malloc element counts) differ from the ones the footprint model was written against",
-                          sorted(set(mallocs) ^ set(model_m))[:6])
+                          sorted(new_m)[:6])
             continue
         if name == "reads":
             run.count("read-footprint certificates", section="correspondence")
